@@ -1,0 +1,185 @@
+//! Verification facade, compiled only with the cargo feature `verif`.
+//!
+//! Everything in this module is add-only: it forwards to crate-private functions so that an
+//! external harness can drive the very same code paths production drives, and it mirrors the
+//! crate-private message types into plain public structs so that decoded messages can be read.
+//! Nothing here changes behaviour. With the feature off, this module does not exist.
+
+use std::cell::Cell;
+use std::collections::HashSet;
+
+use rand::SeedableRng;
+use rand::prelude::StdRng;
+
+pub use crate::server::verif_select_nodes_for_gossip;
+use crate::delta::Delta;
+use crate::digest::Digest;
+use crate::serialize::Serializable;
+use crate::{Chitchat, ChitchatId, ChitchatMessage};
+
+thread_local! {
+    static SHUFFLE_SEED: Cell<u64> = const { Cell::new(0u64) };
+}
+
+/// Sets the (thread-local) seed used by the next equal-staleness shuffles on this thread.
+pub fn verif_set_shuffle_seed(seed: u64) {
+    SHUFFLE_SEED.with(|cell| cell.set(seed));
+}
+
+pub(crate) fn shuffle_rng() -> StdRng {
+    let seed = SHUFFLE_SEED.with(|cell| {
+        let seed = cell.get();
+        // Successive calls get different (but deterministic) streams.
+        cell.set(seed.wrapping_mul(6364136223846793005).wrapping_add(1442695040888963407));
+        seed
+    });
+    StdRng::seed_from_u64(seed)
+}
+
+#[derive(Clone, Debug, Eq, PartialEq)]
+pub struct VerifNodeDigest {
+    pub chitchat_id: ChitchatId,
+    pub heartbeat: u64,
+    pub last_gc_version: u64,
+    pub max_version: u64,
+}
+
+#[derive(Clone, Debug, Eq, PartialEq)]
+pub struct VerifKeyValue {
+    pub key: String,
+    pub value: String,
+    pub version: u64,
+    /// 0 = set, 1 = deleted, 2 = delete-after-ttl.
+    pub status: u8,
+}
+
+#[derive(Clone, Debug, Eq, PartialEq)]
+pub struct VerifNodeDelta {
+    pub chitchat_id: ChitchatId,
+    pub from_version_excluded: u64,
+    pub last_gc_version: u64,
+    pub max_version: u64,
+    pub key_values: Vec<VerifKeyValue>,
+}
+
+#[derive(Clone, Debug, Eq, PartialEq)]
+pub struct VerifDelta {
+    pub node_deltas: Vec<VerifNodeDelta>,
+    pub serialized_len: usize,
+}
+
+#[derive(Clone, Debug, Eq, PartialEq)]
+pub enum VerifMessage {
+    Syn {
+        cluster_id: String,
+        digest: Vec<VerifNodeDigest>,
+    },
+    SynAck {
+        digest: Vec<VerifNodeDigest>,
+        delta: VerifDelta,
+    },
+    Ack {
+        delta: VerifDelta,
+    },
+    BadCluster,
+}
+
+fn describe_digest(digest: &Digest) -> Vec<VerifNodeDigest> {
+    digest
+        .node_digests
+        .iter()
+        .map(|(chitchat_id, node_digest)| VerifNodeDigest {
+            chitchat_id: chitchat_id.clone(),
+            heartbeat: node_digest.heartbeat.0,
+            last_gc_version: node_digest.last_gc_version,
+            max_version: node_digest.max_version,
+        })
+        .collect()
+}
+
+fn describe_delta(delta: &Delta) -> VerifDelta {
+    VerifDelta {
+        node_deltas: delta
+            .node_deltas
+            .iter()
+            .map(|node_delta| VerifNodeDelta {
+                chitchat_id: node_delta.chitchat_id.clone(),
+                from_version_excluded: node_delta.from_version_excluded,
+                last_gc_version: node_delta.last_gc_version,
+                max_version: node_delta.max_version,
+                key_values: node_delta
+                    .key_values
+                    .iter()
+                    .map(|kv| VerifKeyValue {
+                        key: kv.key.clone(),
+                        value: kv.value.clone(),
+                        version: kv.version,
+                        status: u8::from(kv.status),
+                    })
+                    .collect(),
+            })
+            .collect(),
+        serialized_len: delta.serialized_len(),
+    }
+}
+
+/// Mirrors a message into a plain struct with public fields (read-only view).
+pub fn verif_describe(msg: &ChitchatMessage) -> VerifMessage {
+    match msg {
+        ChitchatMessage::Syn { cluster_id, digest } => VerifMessage::Syn {
+            cluster_id: cluster_id.clone(),
+            digest: describe_digest(digest),
+        },
+        ChitchatMessage::SynAck { digest, delta } => VerifMessage::SynAck {
+            digest: describe_digest(digest),
+            delta: describe_delta(delta),
+        },
+        ChitchatMessage::Ack { delta } => VerifMessage::Ack {
+            delta: describe_delta(delta),
+        },
+        ChitchatMessage::BadCluster => VerifMessage::BadCluster,
+        #[cfg(test)]
+        ChitchatMessage::PanicForTest => VerifMessage::BadCluster,
+    }
+}
+
+impl Chitchat {
+    pub fn verif_create_syn_message(&self) -> ChitchatMessage {
+        self.create_syn_message()
+    }
+
+    pub fn verif_process_message(&mut self, msg: ChitchatMessage) -> Option<ChitchatMessage> {
+        self.process_message(msg)
+    }
+
+    pub fn verif_update_nodes_liveness(&mut self) {
+        self.update_nodes_liveness()
+    }
+
+    pub fn verif_gc_keys_marked_for_deletion(&mut self) {
+        self.gc_keys_marked_for_deletion()
+    }
+
+    pub fn verif_update_self_heartbeat(&mut self) {
+        self.update_self_heartbeat()
+    }
+
+    /// Computes the delta this node would send in reply to the digest carried by `syn`
+    /// (a `Syn` or `SynAck` message), under the size budget `mtu`, and wraps it in an `Ack`.
+    /// Returns `None` if `syn` carries no digest.
+    pub fn verif_compute_delta(&self, syn: &ChitchatMessage, mtu: usize) -> Option<ChitchatMessage> {
+        let digest = match syn {
+            ChitchatMessage::Syn { digest, .. } => digest,
+            ChitchatMessage::SynAck { digest, .. } => digest,
+            _ => return None,
+        };
+        let scheduled_for_deletion: HashSet<&ChitchatId> =
+            self.scheduled_for_deletion_nodes().collect();
+        let delta = self.cluster_state.compute_partial_delta_respecting_mtu(
+            digest,
+            mtu,
+            &scheduled_for_deletion,
+        );
+        Some(ChitchatMessage::Ack { delta })
+    }
+}
